@@ -10,6 +10,7 @@ package main
 
 import (
 	"context"
+	"strings"
 	"errors"
 	"fmt"
 	"net"
@@ -145,10 +146,27 @@ func (p *scriptPool) NewStream(ctx context.Context, receiver types.StreamReceive
 	if k < len(h.spec.Pool) {
 		res = h.spec.Pool[k]
 	}
-	u := &upStream{h: h, k: k, receiver: receiver, ctx: ctx, failed: res != "ok"}
+	// like the real pools: the Requests breaker admits the stream (overflow otherwise) and is released when the stream is
+	// reset / destroyed / answered; streams of this request that are still open are counted for the record
+	rm := p.host.ClusterInfo().ResourceManager()
+	if res == "ok" && !rm.Requests().CanCreate() {
+		res = "overflow"
+	}
+	live := 0
+	for _, o := range h.ups {
+		if !o.failed && atomic.LoadUint32(&o.released) == 0 {
+			live++
+		}
+	}
+	u := &upStream{h: h, k: k, receiver: receiver, ctx: ctx, failed: res != "ok", host: p.host}
 	h.ups = append(h.ups, u)
 	h.mu.Unlock()
-	h.add(Rec{Kind: "up.new", K: k, Aux: res + "@" + p.host.AddressString()})
+	if res == "ok" {
+		rm.Requests().Increase()
+		p.host.HostStats().UpstreamRequestActive.Inc(1)
+		p.host.ClusterInfo().Stats().UpstreamRequestActive.Inc(1)
+	}
+	h.add(Rec{Kind: "up.new", K: k, Code: live, Aux: res + "@" + p.host.AddressString()})
 	if k == 0 && h.spec.PoolDelayMs > 0 {
 		time.Sleep(time.Duration(h.spec.PoolDelayMs) * time.Millisecond)
 		h.add(Rec{Kind: "pool.wake", K: k})
@@ -170,13 +188,33 @@ type upStream struct {
 	ctx      context.Context
 	receiver types.StreamReceiveListener
 	failed   bool
+	host     types.Host
 	done     uint32 // response delivered or stream reset
+	released uint32 // the pool's accounting for this stream was released (exactly once)
+}
+
+// release: what the real pools do in OnDestroyStream
+func (u *upStream) release() {
+	if u.failed || !atomic.CompareAndSwapUint32(&u.released, 0, 1) {
+		return
+	}
+	u.host.ClusterInfo().ResourceManager().Requests().Decrease()
+	u.host.HostStats().UpstreamRequestActive.Dec(1)
+	u.host.ClusterInfo().Stats().UpstreamRequestActive.Dec(1)
 }
 
 func (u *upStream) ID() uint64               { return uint64(u.k) }
 func (u *upStream) GetStream() types.Stream  { return u }
 func (u *upStream) AppendHeaders(ctx context.Context, headers api.HeaderMap, end bool) error {
-	u.h.add(Rec{Kind: "up.hdr", K: u.k, End: end})
+	// how often the route's `append` request-header action is visible in what this attempt is sent (x-tag: a[,a...])
+	n := 0
+	if v, ok := headers.Get("x-tag"); ok && v != "" {
+		n = strings.Count(v, ",") + 1
+		if strings.HasPrefix(v, "orig") {
+			n--
+		}
+	}
+	u.h.add(Rec{Kind: "up.hdr", K: u.k, End: end, Code: n})
 	u.sent(end)
 	return nil
 }
@@ -196,6 +234,7 @@ func (u *upStream) sent(end bool) {
 	if end && u.receiver == nil {
 		atomic.StoreUint32(&u.done, 1)
 		u.BaseStream.DestroyStream()
+		u.release()
 	}
 }
 
@@ -204,6 +243,7 @@ func (u *upStream) ResetStream(reason types.StreamResetReason) {
 	u.h.add(Rec{Kind: "up.reset", K: u.k, Aux: string(reason)})
 	atomic.StoreUint32(&u.done, 1)
 	u.BaseStream.ResetStream(reason)
+	u.release()
 }
 
 // environment: the upstream answers
@@ -220,6 +260,7 @@ func (u *upStream) respond(status int, data, trailers bool) bool {
 	if trailers {
 		t = protocol.CommonHeader(map[string]string{"x-t": "1"})
 	}
+	u.release() // the response is complete: the client stream is done
 	u.receiver.OnReceive(u.ctx, hdr, d, t)
 	return true
 }
@@ -229,6 +270,7 @@ func (u *upStream) remoteReset(reason types.StreamResetReason) bool {
 	if u.failed || !atomic.CompareAndSwapUint32(&u.done, 0, 1) {
 		return false
 	}
+	u.release()
 	u.BaseStream.ResetStream(reason)
 	return true
 }
@@ -519,8 +561,8 @@ func setupHistory(h *hist) (api.ReadFilter, *fakeConn, context.Context, error) {
 		cc := v2.Cluster{
 			Name: h.cluster, ClusterType: v2.SIMPLE_CLUSTER, LbType: v2.LB_ROUNDROBIN, MaxRequestPerConn: 1024, ConnBufferLimitBytes: 32768,
 		}
-		if sp.MaxRetries > 0 {
-			cc.CirBreThresholds = v2.CircuitBreakers{Thresholds: []v2.Thresholds{{MaxRetries: uint32(sp.MaxRetries)}}}
+		if sp.MaxRetries > 0 || sp.MaxRequests > 0 {
+			cc.CirBreThresholds = v2.CircuitBreakers{Thresholds: []v2.Thresholds{{MaxRetries: uint32(sp.MaxRetries), MaxRequests: uint32(sp.MaxRequests)}}}
 		}
 		var hosts []v2.Host
 		for i := 0; i < sp.NHosts; i++ {
@@ -547,6 +589,10 @@ func setupHistory(h *hist) (api.ReadFilter, *fakeConn, context.Context, error) {
 		}
 		for _, c := range sp.StatusCodes {
 			rt.Route.RetryPolicy.StatusCodes = append(rt.Route.RetryPolicy.StatusCodes, uint32(c))
+		}
+		if sp.RouteHeaderActions {
+			yes := true
+			rt.Route.RequestHeadersToAdd = []*v2.HeaderValueOption{{Header: &v2.HeaderValue{Key: "x-tag", Value: "a"}, Append: &yes}}
 		}
 	}
 	rc := &v2.RouterConfiguration{
@@ -598,4 +644,12 @@ func retriesCur(clusterName string) (int64, bool) {
 		return 0, false
 	}
 	return snap.ClusterInfo().ResourceManager().Retries().Cur(), true
+}
+
+func requestsCur(clusterName string) int64 {
+	snap := clusterMng.GetClusterSnapshot(context.Background(), clusterName)
+	if snap == nil {
+		return 0
+	}
+	return snap.ClusterInfo().ResourceManager().Requests().Cur()
 }
